@@ -21,10 +21,11 @@ import numpy as np
 from .. import common as cm
 from .. import narrow as nw
 from .. import narrow_bool as nb
+from .. import jolt_corr as jc
 
 PID = "C02"
 PROOF_FILES = ["theories/Props/C02.v", "theories/Checker/NarrowB.v", "theories/Checker/Deep.v",
-               "theories/Checker/Shapes.v", "theories/Spec/Convex.v"]
+               "theories/Checker/Shapes.v", "theories/Spec/Convex.v", "theories/Proofs/JoltLoop.v", "theories/Model/JoltLoop.v"]
 BOOL_FNS = ["isect_jolt", "isect_libccd", "isect_mpr", "isect_nesterov", "isect_nesterov_prim"]
 PUBLIC = dict(isect_jolt="gjk_intersection_jolt", isect_libccd="gjk_intersection_libccd", isect_mpr="mpr_intersection",
               isect_nesterov="gjk_nesterov_accelerated_intersection",
@@ -55,7 +56,7 @@ def gen_cases(rng, tier):
     cases = []
     pairs = [(a, b) for a in nw.KINDS for b in nw.KINDS]
     ppairs = [(a, b) for a in nw.PRIMS for b in nw.PRIMS]
-    reps = 1 if tier == "quick" else 6
+    reps = 1 if tier == "quick" else 5
     rng.shuffle(pairs)
     for rep in range(reps):
         for i, (k1, k2) in enumerate(pairs):
@@ -84,7 +85,7 @@ def gen_cases(rng, tier):
                 cases.append(dict(c1=r[0], c2=r[1], meta=r[2]))
             g = nb.construct_gap(rng, k1, k2, KS[(i + rep + 1) % 3], stream=st, margin_prob=0.0)
             cases.append(dict(c1=g[0], c2=g[1], meta=g[2]))
-    n_general = 120 if tier == "quick" else 1500
+    n_general = 120 if tier == "quick" else 1200
     for i in range(n_general):
         kind = rng.choice(["stream", "stream", "identical", "nested", "touch"])
         if kind == "stream":
@@ -143,6 +144,44 @@ def cert_for(case, jolt):
     return None, None
 
 
+def loop_correspondence(R, cases, tier):
+    """Model/JoltLoop.v (binary64, inside coqc) replays the support points gjk_intersection_jolt obtained,
+    iteration by iteration: search directions, iteration count and the boolean answer must agree
+    (harness/jolt_corr.py, harness/impl/jolttrace.py)."""
+    n = 160 if tier == "quick" else 1200
+    step = max(1, len(cases) // n)
+    tc = [dict(c1=c["c1"], c2=c["c2"], fns=["intersection"], kw={}, kw_i={}, meta=c["meta"]) for c in cases[::step]]
+    try:
+        nwk = min(cm.NCPU, max(1, len(tc) // 6))
+        chunks = [tc[i::nwk] for i in range(nwk)]
+        res = cm.run_impl_parallel(PID, "jolttrace", [dict(cases=ch) for ch in chunks], timeout=1500, tag="trace")
+        out = [None] * len(tc)
+        for w, (rr, ch) in enumerate(zip(res, chunks)):
+            if rr["status"] != "ok":
+                continue
+            for i, x in zip(range(w, len(tc), nwk), rr["result"]["results"]):
+                out[i] = x
+        keep = [(c, o) for c, o in zip(tc, out) if o is not None]
+        lost = len(tc) - len(keep)
+        tc, out = [k[0] for k in keep], [k[1] for k in keep]
+        stats, mism = jc.compare(PID, tc, out, R.rng, lambda c: c["meta"]["L"])
+    except RuntimeError as e:
+        R.corr_broken.append(f"Jolt loop model could not be evaluated: {str(e)[:300]}")
+        return
+    stats["worker_lost"] = lost
+    R.cov["loop_correspondence"] = stats
+    R.cov["traces_validated_against_impl"] = stats.get("matched", stats.get("compared", 0) - stats.get("mismatch", 0))
+    if mism:
+        sub = sorted({m[0] for m in mism})
+        st2, mism2 = jc.compare(PID, [tc[i] for i in sub], [out[i] for i in sub], R.rng,
+                                lambda c: c["meta"]["L"], tag="joltcorr2", npert=24)
+        R.cov["loop_correspondence_second_look"] = st2
+        R.cov["loop_first_look_differences"] = [f"{fn}: {why[:400]}" for (_, fn, why) in mism[:5]]
+        for (j, fn, why) in mism2[:5]:
+            c = tc[sub[j]]
+            R.corr_broken.append(f"Model/JoltLoop.v vs gjk_intersection_jolt ({fn}): {why[:600]} on c1={json.dumps(c['c1'])} c2={json.dumps(c['c2'])}")
+
+
 def run(tier, seed, replay=None):
     R = cm.Run(PID, "translation_validation", tier, seed)
     R.cov["rule"] = (
@@ -157,11 +196,11 @@ def run(tier, seed, replay=None):
         "a collider's point set is the exact shape expression of the floats handed to its constructor; harness/narrow.py parts() is trusted for that translation",
         "pairs for which no certificate is found (band around grazing contact, flat colliders without margin in the overlap class, witness search failed) are not judged; their number is reported",
     ]
-    R.check_proofs(PROOF_FILES)
+    R.check_proofs(PROOF_FILES, build_targets=["theories/Props/C02.vo", "theories/Model/JoltLoopRun.vo"])
     cases = []
     corpus = cm.VERIF / "corpus" / PID
     if replay:
-        c = json.loads(open(replay).read())["case"]
+        c = nb.load_case(replay)
         c = {k: v for k, v in c.items() if k in ("c1", "c2", "meta", "ops")}
         c.setdefault("meta", {})
         c["ops"] = ops_for(c["c1"], c["c2"])
@@ -169,14 +208,14 @@ def run(tier, seed, replay=None):
     else:
         if corpus.exists():
             for f in sorted(corpus.glob("*.json")):
-                c = json.loads(f.read_text())["case"]
-                c.setdefault("meta", {})
+                c = nb.load_case(f)
                 c["ops"] = ops_for(c["c1"], c["c2"])
                 cases.append(c)
         cases += gen_cases(R.rng, tier)
     for c in cases:
         c["meta"].setdefault("L", nw.scene_scale([c["c1"], c["c2"]]))
-    results = nw.run_cases(PID, cases)
+    R.cov["jit_warmup"] = nb.warm(PID, "narrow")
+    results = nb.run_cases(PID, cases, script="narrow", tag="impl")
     R.cov["evaluations"] = len(cases)
     # ---- certificates
     exprs, idx = [], []
@@ -247,4 +286,5 @@ def run(tier, seed, replay=None):
     for c, rr in list(zip(cases, results))[:3]:
         R.sample(dict(c1=c["c1"], c2=c["c2"], meta=c["meta"],
                       result={r["fn"]: (r.get("ans") if "ans" in r else r.get("d", r.get("exc"))) for r in rr}))
+    loop_correspondence(R, cases, tier)
     return R.finish()
